@@ -102,6 +102,15 @@ reg("C16", "exploration",
     "Capacity settings listed by name in the check; values chosen inside the schema validators' ranges. One known finding (v7 key-table schema default) is listed in KNOWN_FINDINGS.txt.",
     "DESIGN.md section 3 C16")
 
+reg("C19", "model_checking",
+    "explicit-state BFS to closure over the real ControllerApplication._watchdog_feed (real EZSP + handler + simulated NCP, virtual clock), canon validated statelessly",
+    "Closed graph over (consecutive failures, feed ordinal mod the configured clear period) x keep-alive outcome {success, counter read unanswered, free-buffer read unanswered, EZSP stopped} for v4 "
+    "(nop) and later versions (counter reads); each transition is one real feed judged by a 10-line reference: raises iff more than 4 failures in a row, success clears, which keep-alive commands "
+    "the NCP saw (read-and-clear exactly on the period), unanswered keep-alive ends at +10 s. All outcome sequences of length 5-6 (thorough 6-7) run without merging and compared edge by edge; "
+    "the shipped period 180 is run along 185 feeds with a failure at every position.",
+    "Tolerated maximum and timeout hard-coded in the oracle; period configured through the module constant; zigpy.util.Requests back-filled to construct the application.",
+    "DESIGN.md section 3 C19")
+
 ALL = ["C%02d" % i for i in range(1, 21)]
 
 
